@@ -383,7 +383,48 @@ def _build(spec, rso_mod=None, variant=None):
         rows = [rows[i] for i in np.random.default_rng(variant['row_order']).permutation(
             len(rows))]
     rrng = np.random.default_rng(int(variant.get('row_form', 0)) + 12345)
+    # rows that share the default set and a sense may be written as ONE vector constraint
+    vec_done = set()
+    if variant.get('vectorize', rng.random() < 0.5) and not variant.get('rescale_rows') \
+            and not variant.get('row_form'):
+        for sense in ('le', 'ge'):
+            grp = [(k_, r_) for k_, r_ in rows if r_['sense'] == sense and r_.get('set') is None]
+            if len(grp) < 2:
+                continue
+            A_ = np.array([r_['e']['a'] for _, r_ in grp], float)
+            Q_ = np.array([r_['e']['q'] for _, r_ in grp], float)
+            kv = np.array([r_['e']['k'] for _, r_ in grp], float)
+            rh = np.array([r_['rhs'] for _, r_ in grp], float)
+            Pst = np.array([r_['e']['P'] for _, r_ in grp], float)       # (R, nx, nz)
+            lhs = None
+            for bi, x in enumerate(xs):
+                t_ = arr(A_[:, xoff[bi]:xoff[bi + 1]]) @ x
+                lhs = t_ if lhs is None else lhs + t_
+                for i in range(x.size):
+                    Pi = Pst[:, xoff[bi] + i, :]
+                    if Pi.any():
+                        for zi, z in enumerate(zs):
+                            Pz = Pi[:, zoff[zi]:zoff[zi + 1]]
+                            if Pz.any():
+                                lhs = lhs + x[i] * (arr(Pz) @ z)
+            for zi, z in enumerate(zs):
+                Qz = Q_[:, zoff[zi]:zoff[zi + 1]]
+                if Qz.any():
+                    lhs = lhs + arr(Qz) @ z
+            for i_, y in enumerate(ys):
+                Bm = np.array([r_['e']['b'][i_] for _, r_ in grp], float)
+                if Bm.any():
+                    lhs = lhs + arr(Bm) @ y
+            lhs = lhs + arr(kv)
+            c = (lhs <= arr(rh)) if sense == 'le' else (lhs >= arr(rh))
+            B.user_constr.append(c)
+            m.st(c)
+            vec_done |= {k_ for k_, _ in grp}
+            _hook(variant, 'row', B)
+    B.vectorized = sorted(vec_done)
     for k_, row in rows:
+        if k_ in vec_done:
+            continue
         _hook(variant, 'row', B)
         lhs = expr(row['e'])
         rhs = row['rhs']
